@@ -229,7 +229,7 @@ def _workdir() -> str:
         import atexit
         import shutil
         import tempfile
-        base = os.path.join(os.path.dirname(os.path.dirname(os.path.abspath(__file__))), "out", "work")
+        base = os.path.join(os.environ.get("VERIF_OUT") or os.path.join(os.path.dirname(os.path.dirname(os.path.abspath(__file__))), "out"), "work")
         os.makedirs(base, exist_ok=True)
         _TMP = tempfile.mkdtemp(prefix="w", dir=base)
         atexit.register(shutil.rmtree, _TMP, True)
@@ -475,7 +475,9 @@ def table_program(arg: dict) -> dict:
         if it["k"] == "open":
             nscope += 1
             lines.append("{" if arg.get("scope_style", "block") == "block" or nscope % 2 else f".scope ns{nscope} {{")
-        elif it["k"] == "close":
+        elif it["k"] == "ifopen":
+            lines.append(".if 1 {")
+        elif it["k"] in ("close", "ifclose"):
             lines.append("}")
         elif it["k"] == "table":
             lines.append(f".table 't{it['t']}.tbl'")
